@@ -66,7 +66,7 @@ def sstruct(fs):
 
 def need_of(text):
     """bytes of buffer the longest lexical item of `text` needs: quoted token + its quotes, unquoted token + its boundary byte,
-    comment + its line feed (measured on the unchanged reader: one byte less is answered `full`)"""
+    comment incl. `#` + 1 (measured on the unchanged reader: one byte less is answered `full`)"""
     i, n, m = 0, len(text), 8
     while i < n:
         c = text[i]
@@ -80,7 +80,7 @@ def need_of(text):
             j = i
             while j < n and text[j] != 0x0a:
                 j += 1
-            m = max(m, j - i + 2)
+            m = max(m, j - i + 1)
             i = j
         elif c in b" \t\r\n;{}=<>!?":
             i += 1
@@ -442,6 +442,19 @@ def fam_buffer(C):
             C.add("buf_" + name, n, text, s, exp, paths=["slice"] + paths, small=False)
 
 
+def fam_default_buffer(C):
+    """tokens that just fit the DEFAULT buffer (32 KiB) of from_*_reader / TokenReader::new: need = 32767 and 32768"""
+    sh = sstruct([("a", "", "str"), ("b", "", "u8")])
+    for nd in (32767, 32768):
+        q = (b"abcdefg " * 4096)[:nd - 2 - 1] + b"z"
+        u = (b"abcdefgh" * 4096)[:nd - 1]
+        for name, text, exp in (("quoted", b"b=2 a=\"" + q + b"\" ", vstruct([("a", vs(q)), ("b", vu(2))])),
+                                ("unquoted", b"b=2 a=" + u + b" ", vstruct([("a", vs(u)), ("b", vu(2))])),
+                                ("comment", b"a=x #" + q + b"\nb=2", vstruct([("a", vs("x")), ("b", vu(2))]))):
+            assert need_of(text) == nd, (name, need_of(text), nd)
+            C.add("default_buffer_" + name, nd, text, sh, exp, paths=["slice", "reader:32768:-", "freader:-", "freader:4096*", "freader:32768,1*"], small=False, model=False)
+
+
 def fam_buffer_size(C):
     """the buffer size itself over the ladder on one fixed document of short tokens (many refills: text / buffer from 0 to 200)"""
     body = " ".join("f%d={x=%d s=\"v %d\" {} l={1 2 3}}" % (i, i, i) for i in range(64))
@@ -500,7 +513,7 @@ def fam_gaps(C):
         c = b"#" + (b"c{}=\"" * (n // 5 + 1))[:n] + b"\n"
         text = c + b"a=x" + c + b"b" + c + b"=2" + c
         # a comment has to fit into the buffer like a token: the default 32 KiB readers see it only up to 32766 bytes
-        C.add("comment_len", n, text, sh, exp, paths=TAPE + (BIG if n <= 32000 else []) + ["reader:%d:%s" % (n + 3 + d, s) for d in (0, 1, 8) for s in ("-", "7*" if n <= 4097 else "4096*")], small=False)
+        C.add("comment_len", n, text, sh, exp, paths=TAPE + (BIG if n <= 32000 else []) + ["reader:%d:%s" % (max(n + 2, 9) + d, s) for d in (0, 1, 8) for s in ("-", "7*" if n <= 4097 else "4096*")], small=False)
 
 
 def fam_ghosts(C):
@@ -610,7 +623,7 @@ def fam_hints(C):
 
 
 FAMILIES = [fam_fields, fam_dups, fam_skip, fam_skip_align, fam_seq, fam_map, fam_strings, fam_str_align, fam_ints, fam_floats,
-            fam_buffer, fam_buffer_size, fam_depth, fam_gaps, fam_ghosts, fam_headers, fam_options, fam_input_align, fam_straddle, fam_hints]
+            fam_buffer, fam_default_buffer, fam_buffer_size, fam_depth, fam_gaps, fam_ghosts, fam_headers, fam_options, fam_input_align, fam_straddle, fam_hints]
 
 
 def build(ctx):
@@ -620,17 +633,37 @@ def build(ctx):
     return C.rows
 
 
+LONG = 20000          # bytes of text from which a case runs under the short watchdog
+LONG_TIMEOUT = 45     # seconds for one harness process over its share of the long cases
+
+
 def run(ctx):
+    import hashlib
+    import vlib
     rows = build(ctx)
     cases = ["\t".join(["de.text", p, enc, sh, hx(text)]) for (fam, n, p, enc, sh, text, exp, model) in rows]
     nt = lambda c, i: i.startswith("(")
-    impl, _ = ctx.correspond("size_ladder", cases, nontrivial=nt, model=False)
-    base = len(impl) - len(cases)
+    short = [k for k, r in enumerate(rows) if len(r[5]) <= LONG]
+    long_ = [k for k, r in enumerate(rows) if len(r[5]) > LONG]
+    impl = [None] * len(rows)
+    out, _ = ctx.correspond("size_ladder", [cases[k] for k in short], nontrivial=nt, model=False)
+    base = len(out) - len(short)
+    for j, k in enumerate(short):
+        impl[k] = out[base + j]
+    # the long cases (up to 830 KB of text) under a short watchdog: a change that makes a cursor wrap around loops forever, and
+    # the default 600 s per hanging case would turn one such change into hours (same runner, same limits otherwise)
+    out = vlib.run_impl([cases[k] for k in long_], ctx.profile, timeout=LONG_TIMEOUT)
+    st = ctx.streams.setdefault("size_ladder_long", {"cases": 0, "disagree": 0})
+    st["cases"] += len(long_)
+    ctx.evaluations += len(long_)
+    for j, k in enumerate(long_):
+        impl[k] = out[j] if j < len(out) else "MISSING"
+        if nt(cases[k], impl[k]):
+            ctx.nontrivial.add(hashlib.md5((cases[k] + "\x00" + impl[k]).encode()).digest()[:8])
     for k, (fam, n, p, enc, sh, text, exp, model) in enumerate(rows):
-        o = impl[base + k]
+        o = impl[k]
         ctx.count("size_cases")
         if o != exp:
-            pk = p.split(":")[0]
             ctx.fail("size-" + fam, "size ladder `%s` at %d (%d bytes of text) on path %s: the implementation returns %s, the document's values are %s"
                      % (fam, n, len(text), p, o[:160], exp[:160]), [cases[k]], [o[:4000]], exp[:4000])
     # the small cases once more against the extracted deserializer walks (TextDeTape / TextDeStream)
